@@ -13,6 +13,8 @@ A *program* is plain JSON-able data (so that it replays without Hypothesis):
                'foreign'  *HA / **HK      (module globals the harness controls)
                'own+f'    *args, *HA      (combined with another star-argument)
                'own+own'  *args, *args
+               'own+pos'  *args, 2000     (a positional argument written after the star-argument: it lands behind
+                                           whatever the caller passed)
             and the statement context the call expression is placed in
   multi   : 'branch' (if SEL == i: ...) | 'seq' (one after another)
   route   : how the callee expression is resolved (global, closure, attr, self_method,
@@ -46,7 +48,7 @@ LNAMES = ('x', 'y', 'z', 'a')
 CTXS = ('return', 'assign', 'if', 'try', 'with', 'listcomp', 'dictcomp', 'genexp', 'nested', 'lambda',
         'decoyarg', 'ternary', 'nested2', 'lambda_default', 'walrus', 'fstring', 'starred_display',
         'nested_decoyarg', 'lambda_decoykw', 'lambda_subscript', 'comp_rebinds_args', 'comp_rebinds_kwargs', 'genexp_rebinds_args', 'genexp_rebinds_kwargs',
-        'loop_rebinds_args', 'loop_rebinds_kwargs', 'text_col0', 'continuation_col0',
+        'loop_rebinds_args', 'loop_rebinds_kwargs', 'comploop_mutates_kwargs', 'text_col0', 'continuation_col0',
         'nested_lambda', 'lambda_lambda',
         'nested_early', 'lambda_early', 'nested_listcomp', 'lambda_dictcomp', 'nested_listcomp_early', 'lambda_dictcomp_early',
         'nested_genexp_early', 'lambda_setcomp_early', 'genexp_lazy', 'genexp_lazy_early', 'async_nested', 'async_nested_early')
@@ -84,6 +86,8 @@ TAINTS = {
     'handover_kwargs': ('kwargs', 'MUTATE({K})', 'both'),
     'nonlocal_kwargs': ('kwargs', 'def _rebk():\n    nonlocal {K}\n    {K} = dict(HK)\n_rebk()', 'hidden'),
     'alias_kwargs': ('kwargs', '_alias = {K}\n_alias.update(HK)', 'both'),
+    # ... through a bound method taken from it
+    'method_alias_kwargs': ('kwargs', '_upd = {K}.update\n_upd(HK)', 'both'),
     # mutation from inside a nested function (it may run at any time)
     'nested_update_kwargs': ('kwargs', 'def _mut():\n    {K}.update(HK)\n_mut()', 'both'),
     'nested_handover_kwargs': ('kwargs', 'def _mut2():\n    MUTATE({K})\n_mut2()', 'both'),
@@ -174,7 +178,7 @@ def st_call(leaves, nleaves, has_va, has_vk, ctxs=CTXS):
             npos = draw(st.integers(0, cap + 2))
             names = draw(st.permutations(list(kwp) + ['q', 'zz']))[:draw(st.integers(0, 2))]
         own = ['own'] * 6 + ['none', 'foreign', 'own+f']
-        sa = draw(st.sampled_from(own if has_va else ['none', 'none', 'foreign']))
+        sa = draw(st.sampled_from(own + ['own+pos'] if has_va else ['none', 'none', 'foreign']))
         sk = draw(st.sampled_from(own if has_vk else ['none', 'none', 'foreign']))
         inarg = draw(st.sampled_from([None] * 8 + ['pop', 'mutate']))
         unres = draw(st.integers(0, 11)) == 0
@@ -226,9 +230,9 @@ def normalise(prog):
             c['ctx'] = 'listcomp'
         if c['ctx'] == 'loop_rebinds_args' and not (has_star['args'] and c['sa'] == 'own'):
             c['ctx'] = 'if'
-        if c['ctx'] == 'loop_rebinds_kwargs' and not (has_star['kwargs'] and c['sk'] == 'own'):
+        if c['ctx'] in ('loop_rebinds_kwargs', 'comploop_mutates_kwargs') and not (has_star['kwargs'] and c['sk'] == 'own'):
             c['ctx'] = 'if'
-    loops = [c for c in prog['calls'] if c['ctx'] in ('loop_rebinds_args', 'loop_rebinds_kwargs')]
+    loops = [c for c in prog['calls'] if c['ctx'] in ('loop_rebinds_args', 'loop_rebinds_kwargs', 'comploop_mutates_kwargs')]
     if loops:
         # the rebinding outlives the loop -- for the reader of the source on every path, at run time only where the loop ran:
         # such a program has this one forwarding call
@@ -238,7 +242,9 @@ def normalise(prog):
         c.setdefault('inarg', None)
         c.setdefault('unres', False)
         if c['inarg'] and (nested_any or 'own' not in c['sk'] or not (c['npos'] or c['names'])
-                           or prog['route'] == 'partial_inner'):
+                           or prog['route'] == 'partial_inner'
+                           # (inside a comprehension that rebinds the name the expression would touch the comprehension's own variable)
+                           or c['ctx'] in ('comp_rebinds_kwargs', 'genexp_rebinds_kwargs', 'loop_rebinds_kwargs', 'comploop_mutates_kwargs')):
             c['inarg'] = None
         if c['unres'] and prog['route'] in UNRESOLVABLE + ('partial_inner',):
             c['unres'] = False
@@ -371,6 +377,8 @@ def _call_expr(prog, call, callee_expr, outer, j):
         parts += ['*' + va, '*HA']
     elif sa == 'own+own':
         parts += ['*' + va, '*' + va]
+    elif sa == 'own+pos':
+        parts += ['*' + va, str(2000 + j)]
     for n in call['names']:
         if inexpr:
             parts.append('%s=%s' % (n, inexpr))
@@ -434,6 +442,9 @@ def _stmt(ctx, expr, j):
         return 'for _i%d in (0, 1):\n    %s = %s\n    {A} = HA\n' % (j, r, expr)
     if ctx == 'loop_rebinds_kwargs':
         return 'for _i%d in (0, 1):\n    %s = %s\n    {K} = dict(HK)\n' % (j, r, expr)
+    if ctx == 'comploop_mutates_kwargs':
+        # a comprehension is a loop too: its element is evaluated once per item, the second time after the first one's side effects
+        return '%s = [(%s, {K}.clear(), {K}.update(HK))[0] for _i%d in (0, 1)][-1]\n' % (r, expr, j)
     if ctx == 'comp_rebinds_args':
         return '%s = [%s for {A} in (HA,)][0]\n' % (r, expr)
     if ctx == 'comp_rebinds_kwargs':
@@ -593,7 +604,7 @@ def render(prog):
             else:
                 early, s = s.split(HOIST)
                 hoisted.append(early)
-        if c['ctx'] in ('comp_rebinds_args', 'comp_rebinds_kwargs', 'genexp_rebinds_args', 'genexp_rebinds_kwargs', 'loop_rebinds_args', 'loop_rebinds_kwargs'):
+        if c['ctx'] in ('comp_rebinds_args', 'comp_rebinds_kwargs', 'genexp_rebinds_args', 'genexp_rebinds_kwargs', 'loop_rebinds_args', 'loop_rebinds_kwargs', 'comploop_mutates_kwargs'):
             s = s.replace('{A}', va or 'args').replace('{K}', vk or 'kwargs')
         if route == 'shadow_nested':
             stmts.pop()
@@ -690,7 +701,7 @@ def taint_state(prog, upto=None):
             apply('kwargs', 'hidden')
         elif calls[upto]['ctx'] == 'loop_rebinds_args':
             apply('args', 'both')
-        elif calls[upto]['ctx'] == 'loop_rebinds_kwargs':
+        elif calls[upto]['ctx'] in ('loop_rebinds_kwargs', 'comploop_mutates_kwargs'):
             apply('kwargs', 'both')
     for c in calls[:last + 1]:
         if c.get('inarg') == 'pop':
